@@ -5,7 +5,7 @@ import RsomeV.M.AtomsSoc
 robust models whose deterministic part is linear (LP-class: `LinConstr`, `Bounds`, `RoConstr`;
 supports: any conic program the support model emits without LMIs):
 
-* `ro.Model.st` : robust equalities are split into `expr <= 0`, `-expr <= 0` (`RoItem.robEq`);
+* `ro.Model.do_math` (formerly `st`) : robust equalities are split into `expr <= 0`, `-expr <= 0` (`RoItem.robEq`);
 * the objective: a plain affine objective is handed to `rc_model` (its epigraph row is the last row,
   an `aux_constr`); an uncertain objective becomes the robust constraint `vars[0] >= sign*obj` with
   the default support, appended after all user constraints; a piecewise objective one constraint
